@@ -255,6 +255,8 @@ class Stack:
         self.warnings.append(warning, self.dump_stacktrace())
 
     def make_not_exist_warn(self):
+        if self.compile_options.supress_command_not_exist:
+            return
         self.warnings.append(
             f"The command on line {self.current_line.number} may not exist"
             if self.current_line is not None
